@@ -53,6 +53,9 @@ pub struct DocV {
     /// as a history step: send the document's CURRENT text again (didChange with identical text)
     #[serde(default)]
     pub resend: bool,
+    /// module-level assignments `NAME = 0` of (visible) fixture names (level, index) at the top of this version
+    #[serde(default)]
+    pub shadows: Vec<(u8, u8)>,
 }
 
 #[derive(Clone, Debug, Serialize, Deserialize)]
@@ -84,6 +87,12 @@ fn name_of(level: u8, idx: u8) -> String {
 
 pub fn render(level: u8, d: &DocV) -> String {
     let mut s = String::from("import pytest\n\n");
+    for (l, i) in &d.shadows {
+        // only names of other levels: a module-level name equal to one of the document's own fixtures would be a redefinition
+        if l % 4 != level % 4 {
+            s.push_str(&format!("{} = 0\n", name_of(*l, *i)));
+        }
+    }
     // a dependency / body name is only meaningful when visible: own file or an ancestor level
     let visible = |l: u8| l % 4 == 3 || l % 4 <= level;
     let mut seen = BTreeSet::new();
@@ -203,7 +212,7 @@ fn docv(level: u8) -> impl Strategy<Value = DocV> {
     let ts = (0u8..3, vec(dep.clone(), 0..=2), prop_oneof![1 => Just(vec![]), 2 => vec(dep, 1..=3)]).prop_map(|(k, params, body)| Tst { k, params, body });
     let nt = if level == 2 { 1..=3usize } else { 0..=1usize };
     (vec(fx, 0..=3), vec(ts, nt), prop_oneof![9 => Just(false), 1 => Just(true)], prop_oneof![6 => Just(false), 1 => Just(true)], prop_oneof![2 => Just(false), 1 => Just(true)])
-        .prop_map(|(fixtures, tests, broken, close, dups)| DocV { fixtures, tests, broken, close, dups, resend: false })
+        .prop_map(|(fixtures, tests, broken, close, dups)| DocV { fixtures, tests, broken, close, dups, resend: false, shadows: vec![] })
 }
 
 fn conf() -> impl Strategy<Value = Conf> {
@@ -218,7 +227,14 @@ pub fn session() -> impl Strategy<Value = Session> {
     (conf(), docv(0), docv(1), docv(2), docv(1), vec((0u8..3, prop_oneof![docv(0), docv(1), docv(2)], prop_oneof![5 => Just(false), 1 => Just(true)]).prop_map(|(l, mut d, resend)| {
         d.resend = resend;
         (l, d)
-    }), 1..=6)).prop_map(|(conf, a, b, c, skipme, steps)| {
+    }), 1..=6)
+        .prop_flat_map(|steps| (Just(steps), vec(prop_oneof![3 => Just(vec![]), 1 => vec((0u8..3, 0u8..3), 1..=2)], 8)))
+        .prop_map(|(mut steps, sh)| {
+            for (k, st) in steps.iter_mut().enumerate() {
+                st.1.shadows = sh[k % sh.len()].clone();
+            }
+            steps
+        })).prop_map(|(conf, a, b, c, skipme, steps)| {
         let mut a = a;
         let mut b = b;
         let mut c = c;
